@@ -151,9 +151,46 @@ class GhostFS(object):
             fs.unlinked.append(args[0])
             Ctx.current.effect("unlink", args[0])
 
+        # the shared temporary directory also holds files of OTHER processes: an intermediate file of a concurrent
+        # import and an unrelated file.  Directory listings show them (and this call's own live temp files), so that
+        # code which sweeps the directory is seen touching what it did not create.
+        foreign = ["/ghost-tmp/tmpq7x2k_.gffutils", "/ghost-tmp/unrelated.txt"]
+
+        def listing():
+            own = [n for n in fs.created if n not in fs.unlinked]
+            return foreign + own
+
+        def glob_(interp, args, kwargs):
+            import fnmatch
+            pat = args[0]
+            if not isinstance(pat, str):
+                raise Undecided("glob of a symbolic pattern")
+            Ctx.current.effect("glob", pat)
+            return [n for n in listing() if fnmatch.fnmatch(n, pat)]
+
+        def listdir(interp, args, kwargs):
+            d = args[0] if args else "."
+            if not isinstance(d, str):
+                raise Undecided("listdir of a symbolic path")
+            Ctx.current.effect("listdir", d)
+            d = d.rstrip("/")
+            return [n[len(d) + 1:] for n in listing() if n.startswith(d + "/") and "/" not in n[len(d) + 1:]]
+
+        def rmtree(interp, args, kwargs):
+            fs.unlinked.append(args[0])
+            Ctx.current.effect("unlink", args[0])
+
+        import glob as _glob
+        import shutil as _shutil
         it.contracts[tempfile.NamedTemporaryFile] = named_tmp
+        it.contracts[tempfile.gettempdir] = lambda interp, a, k: "/ghost-tmp"
         it.contracts[builtins.open] = open_
         it.contracts[os.unlink] = unlink
+        it.contracts[os.remove] = unlink
+        it.contracts[_glob.glob] = glob_
+        it.contracts[_glob.iglob] = lambda interp, a, k: iter(glob_(interp, a, k))
+        it.contracts[os.listdir] = listdir
+        it.contracts[_shutil.rmtree] = rmtree
 
 
 # ------------------------------------------------------------------------------------------
@@ -249,7 +286,18 @@ def classify(effects):
                 if k == "executescript":
                     out.append(Eff("script", None, None, args, fa, raw=q, how=k))
                     continue
-                raise
+                # a statement outside the modelled SQL subset is still classified by its verb and table, so that the
+                # shape clauses see that SOMETHING writes to / reads from the table (its exact effect is unknown: any
+                # clause that needs it fails or is undecided, it is never skipped)
+                import re as _re
+                txt = " ".join(str(q).split()) if isinstance(q, str) else ""
+                m = (_re.match(r"(?i)\s*(delete)\s+from\s+(\w+)", txt) or _re.match(r"(?i)\s*(update)\s+(?:or\s+\w+\s+)?(\w+)", txt)
+                     or _re.match(r"(?i)\s*(insert|replace)\s+(?:or\s+\w+\s+)?into\s+(\w+)", txt) or _re.match(r"(?i)\s*(select)\b.*?\bfrom\s+(\w+)", txt))
+                if not m:
+                    raise
+                kind = m.group(1).lower()
+                out.append(Eff("insert" if kind == "replace" else kind, m.group(2), None, args, fa, raw=q, how=k))
+                continue
             if st.kind == "noeffect":
                 out.append(Eff("noeffect", None, st, args, fa, raw=q, how=k))
             elif st.kind == "insert":
